@@ -2,6 +2,7 @@ import SV.Wire
 import SV.Model.Plan
 import SV.Model.Stateful
 import SV.Model.StatefulMachine
+import SV.Model.C12Settings
 open SV SV.Wire SV.Model.Engine SV.Model.Plan
 
 def decStatus : Json → Except String Status
@@ -225,8 +226,33 @@ def applyOps : MSt → List Json → Except String (MSt × List Json)
 
 end SMD
 
+namespace SetD
+open SV.Model.C12Settings
+def decPhase : Json → Except String Phase
+  | .str "explicit" => pure .explicit | .str "reuse" => pure .reuse | .str "generate" => pure .generate
+  | .str "target" => pure .target | .str "shrink" => pure .shrink | .str "explain" => pure .explain
+  | _ => .error "bad phase"
+def encPhase : Phase → Json
+  | .explicit => .str "explicit" | .reuse => .str "reuse" | .generate => .str "generate"
+  | .target => .str "target" | .shrink => .str "shrink" | .explain => .str "explain"
+def decS (j : Json) : Except String S := do
+  return ⟨← asNat (← field j "max_examples"), ← asNat (← field j "stateful_step_count"), ← asOpt asNat (optField j "deadline"),
+          ← asBool (← field j "derandomize"), ← asList decPhase (← field j "phases")⟩
+def encS (s : S) : Json :=
+  jobj [("max_examples", jnat s.maxExamples), ("stateful_step_count", jnat s.stepCount),
+        ("deadline", match s.deadline with | some d => jnat d | none => .null), ("derandomize", .bool s.derandomize),
+        ("phases", .arr (s.phases.map encPhase))]
+end SetD
+
 def handle : Handler := fun op a => do
   match op with
+  | "settings" =>
+    let ag ← (match ← asStr (a.getD "against" (.str "active")) with
+      | "active" => pure SV.Model.C12Settings.Against.active | "stock" => pure SV.Model.C12Settings.Against.stock
+      | o => .error s!"against {o}")
+    let conf ← asOpt SetD.decS (optField a "configured")
+    return SetD.encS (SV.Model.C12Settings.effective ag (← SetD.decS (← field a "active")) (← SetD.decS (← field a "stock")) conf
+      (← asBool (← field a "fuzzing")))
   | "sm_ops" =>
     let (m, outs) ← SMD.applyOps (← SMD.initSt a) (← asArr (← field a "ops"))
     return jobj [("state", SMD.encMSt m), ("results", .arr outs)]
